@@ -216,6 +216,19 @@ impl Shadow {
         s
     }
 
+    /// The arena's graph with the outgoing strong edges of every object whose kind satisfies `pred` removed.
+    pub fn clone_arena_without_edges_of(&self, a: Aid, pred: impl Fn(Kind) -> bool) -> Shadow {
+        let mut s = self.clone();
+        for o in s.objs.values_mut() {
+            if o.arena == a && pred(o.kind) {
+                for e in o.strong.iter_mut() {
+                    *e = None;
+                }
+            }
+        }
+        s
+    }
+
     pub fn arena_objs(&self, a: Aid) -> impl Iterator<Item = (&Id, &Obj)> {
         self.objs.iter().filter(move |(_, o)| o.arena == a)
     }
